@@ -50,4 +50,92 @@ theorem readForm_leaf {cfg : Cfg} (hphs : cfg.phs = none) {t : Token} (h : NotSp
   · rw [if_neg h36] at hv ⊢
     simp only [hv]
 
+/-! ### brackets -/
+
+theorem shape_paren {cfg : Cfg} {t : Token} (h : tokStr t = "(") :
+    shape cfg t = .opn ")" (fun xs close => .ok (.list xs (some (closePos (tokPos cfg t) (tokPos cfg close))))) := by
+  unfold shape
+  simp only [h]
+  rfl
+
+theorem shape_brack {cfg : Cfg} {t : Token} (h : tokStr t = "[") :
+    shape cfg t = .opn "]" (fun xs close => .ok (.vec xs (some (closePos (tokPos cfg t) (tokPos cfg close))))) := by
+  unfold shape
+  simp only [h]
+  rfl
+
+theorem shape_brace {cfg : Cfg} {t : Token} (h : tokStr t = "{") :
+    shape cfg t = .opn "}" (fun xs _ =>
+        match newHashMap xs [] with
+        | .error e => .error e
+        | .ok m => .ok (.map m)) := by
+  unfold shape
+  simp only [h]
+  rfl
+
+theorem shape_hashbrace {cfg : Cfg} {t : Token} (h : tokStr t = "#{") :
+    shape cfg t = .opn "}" (fun xs _ =>
+        match newSet xs [] with
+        | .error e => .error e
+        | .ok m => .ok (.set m)) := by
+  unfold shape
+  simp only [h]
+  rfl
+
+/-! ### reading a complete form / a sequence up to the closing bracket -/
+
+/-- the tokens `ts` are read as the value `v`, whatever follows -/
+def Reads (cfg : Cfg) (ts : List Token) (v : Val) : Prop :=
+  ∃ f, ∀ rest, readForm f cfg (ts ++ rest) = .ok (v, rest)
+
+/-- the tokens `ts`, then a closing token, are read by `readList` as the values `vs` -/
+def ReadsSeq (cfg : Cfg) (closer : String) (ts : List Token) (vs : List Val) : Prop :=
+  ∃ f, ∀ close rest acc, tokStr close = closer →
+    readList f cfg closer (ts ++ close :: rest) acc = .ok (acc.reverse ++ vs, close, rest)
+
+/-- the first token is not a closing bracket -/
+def FirstOk (ts : List Token) : Prop :=
+  ∃ t r, ts = t :: r ∧ tokStr t ≠ ")" ∧ tokStr t ≠ "]" ∧ tokStr t ≠ "}"
+
+def IsCloserStr (c : String) : Prop := c = ")" ∨ c = "]" ∨ c = "}"
+
+theorem readsSeq_nil (cfg : Cfg) (closer : String) : ReadsSeq cfg closer [] [] := by
+  refine ⟨1, fun close rest acc hc => ?_⟩
+  rw [List.nil_append, readList_cons, if_pos hc, List.append_nil]
+
+theorem ok_ne_fuelPanic {α} {x : α} : (Except.ok x : Except RErr α) ≠ fuelPanic := by
+  intro h; cases h
+
+theorem readsSeq_cons {cfg : Cfg} {closer : String} (hcl : IsCloserStr closer) {ts1 ts2 : List Token}
+    {v1 : Val} {vs : List Val} (h1 : Reads cfg ts1 v1) (hf : FirstOk ts1) (h2 : ReadsSeq cfg closer ts2 vs) :
+    ReadsSeq cfg closer (ts1 ++ ts2) (v1 :: vs) := by
+  obtain ⟨f1, h1⟩ := h1
+  obtain ⟨f2, h2⟩ := h2
+  obtain ⟨t, r, rfl, n1, n2, n3⟩ := hf
+  refine ⟨max f1 f2 + 1, fun close rest acc hc => ?_⟩
+  have hne : ¬ tokStr t = closer := by
+    rcases hcl with h | h | h <;> subst h <;> assumption
+  have e1 := h1 (ts2 ++ close :: rest)
+  have e2 := h2 close rest (v1 :: acc) hc
+  have m1 := (mono cfg f1).1 _ (by rw [e1]; exact ok_ne_fuelPanic) (max f1 f2) (Nat.le_max_left ..)
+  have m2 := (mono cfg f2).2 _ _ _ (by rw [e2]; exact ok_ne_fuelPanic) (max f1 f2) (Nat.le_max_right ..)
+  rw [List.append_assoc, List.cons_append, readList_cons, if_neg hne]
+  rw [List.cons_append] at m1 e1
+  rw [m1, e1]
+  simp only []
+  rw [m2, e2]
+  simp
+
+/-- a bracketed sequence -/
+theorem reads_open {cfg : Cfg} {closer : String} {k : List Val → Token → Except RErr Val}
+    {tOpen tClose : Token} {ts : List Token} {vs : List Val} {v : Val}
+    (hs : shape cfg tOpen = .opn closer k) (hc : tokStr tClose = closer) (h : ReadsSeq cfg closer ts vs)
+    (hk : k vs tClose = .ok v) : Reads cfg (tOpen :: ts ++ [tClose]) v := by
+  obtain ⟨f, h⟩ := h
+  refine ⟨f + 1, fun rest => ?_⟩
+  have e := h tClose rest [] hc
+  have : (tOpen :: ts ++ [tClose]) ++ rest = tOpen :: (ts ++ tClose :: rest) := by simp
+  rw [this, readForm_cons, hs]
+  simp only [e, List.reverse_nil, List.nil_append, hk]
+
 end LispModel.Proofs.PrintRead
